@@ -142,8 +142,8 @@ func runC13(h *Harness) {
 	// ---------------------------------------------------------------- phase 1b: first use of a new location while a tick is due
 	{
 		l4 := w.NewLocation(LocOpts{Name: "L4", URL: "http://crl4.sim/d.crl", Issuer: w.A, NVers: 1, Extra: 2, Width: 11, Base: 3})
-		cdp4 := []string{"http://dead4.sim/x.crl", l4.URL} // several URLs: the loader remembers which one worked
-		l4.SlowFirst = Pick(tp, 0, 2*time.Second, 2*time.Second)  // whoever asks first (updater or handshake) is overtaken by the other
+		cdp4 := []string{"http://dead4.sim/x.crl", l4.URL}       // several URLs: the loader remembers which one worked
+		l4.SlowFirst = Pick(tp, 0, 2*time.Second, 2*time.Second) // whoever asks first (updater or handshake) is overtaken by the other
 		h.S.Run(func(v schedView) bool {
 			for _, t := range v.parked {
 				if t.kind == kStart && !t.client {
